@@ -313,9 +313,11 @@ def import_connection_target(
 
 
 def import_concat(pconc: vckt.Concat, module: Module) -> Concat:
-    """Import a (potentially nested) Concatenation"""
+    """Import a (potentially nested) Concatenation.
+    VLSIR concatenations list their most-significant part first;
+    Hdl21 `Concat`s list their least-significant part first."""
     parts = []
-    for ppart in pconc.parts:
+    for ppart in reversed(pconc.parts):
         part = import_connection_target(ppart, module)
         parts.append(part)
     return Concat(*parts)
